@@ -13,6 +13,7 @@ mixed-case option names.  Discinfo: same four monitors on generated
 import os
 import random
 
+from rv import formats
 from rv import fmt_treeinfo as F
 from rv.model import domains
 
@@ -268,6 +269,9 @@ def run_shard(ctx):
             break
         force = TI_FORCES[(i // 2) % len(TI_FORCES)] if i % 2 == 0 else None
         D = F.gen_description(rng, force)
+        if force is None and rng.random() < 0.1:
+            formats.equalise("treeinfo", D, rng)
+            ctx.count("fields-made-equal")
         written = check_treeinfo(ctx, pmt, D, rng.randrange(1 << 30), tmpdir)
         if written:
             for k in F.classes_of(D):
